@@ -1,6 +1,7 @@
 (* Proofs about the OpenAPI state machine (Glob/OpenApiState.v):
-   - history_refuted / history_refuted_builtin_leak : answers of a build depend on earlier builds (C01, F1)
-   - history_partial : ... but not when every earlier build and the build itself use the built-in schema
+   - history_partial : a build that uses the built-in schema observes the same after any history of such builds
+     (the general theorem, for all builds, is in Glob/OpenApiHistoryProofs.v; the two former leaks are kept as
+     regression examples below)
    - the lemmas are reused by the interleaving theorem (Glob/OpenApiConcProofs.v, C16_result_independent). *)
 From KV Require Import Base.Prelude Gen.OpenApiTables Glob.OpenApiState.
 
@@ -213,14 +214,21 @@ Proof.
   unfold set_schema.
   destruct ((negb (String.eqb (o_ver s) "") || is_some (o_custom s)) && negb reset).
   { exists s. repeat split; auto. }
-  assert (Hempty : exists s', (let s1 := with_ver s "" in (s1, COk)) = (s', COk) /\ dinv e s' /\ (bt_full e s -> bt_full e s')).
-  { exists (with_ver s ""). repeat split; auto. }
+  assert (Hempty : exists s', (match o_custom (with_ver s "") with
+                               | Some _ => drop_parsed (with_custom (with_ver s "") None)
+                               | None => with_ver s ""
+                               end, COk) = (s', COk) /\ dinv e s' /\ (bt_full e s -> bt_full e s')).
+  { cbn [o_custom with_ver]. rewrite D1. exists (with_ver s ""). repeat split; auto. }
   destruct HV as [ -> | [ -> | -> ] ].
-  - exact Hempty.
-  - exact Hempty.
-  - cbv beta iota zeta. rewrite default_version_nonempty, default_version_builtin. cbn [negb].
-    eexists. split; [reflexivity|]. split; [|auto].
-    split; [reflexivity | apply is_default_ver_default | exact D3 | exact D4 | exact D5 | intro X; discriminate X].
+  - cbv beta iota zeta. rewrite String.eqb_refl. exact Hempty.
+  - cbv beta iota zeta. rewrite String.eqb_refl. exact Hempty.
+  - cbv beta iota zeta. rewrite default_version_nonempty, default_version_builtin. cbn [negb o_custom with_ver].
+    rewrite D1.
+    destruct (same_builtin_version (o_ver s) default_version).
+    + eexists. split; [reflexivity|]. split; [|auto].
+      split; [exact D1 | apply is_default_ver_default | exact D3 | exact D4 | exact D5 | exact D6].
+    + eexists. split; [reflexivity|]. split; [|auto].
+      split; [exact D1 | apply is_default_ver_default | exact D3 | exact D4 | exact D5 | intro X; discriminate X].
 Qed.
 
 Lemma is_init_needed_default e s :
@@ -376,30 +384,25 @@ Proof.
   - intros p [].
 Qed.
 
-(* F1: a build that installs a custom schema changes what a later built-in-schema build observes
-   (merge key of a CRD list, namespace scope of the CRD kind) *)
+(* Regression examples: the two history leaks that existed before the repairs of SetSchema / initSchema
+   (findings C01/history-leak-after-custom-schema and C01/history-leak-builtin-into-custom-schema-build; these were
+   the witnesses of the former theorems history_refuted / history_refuted_builtin_leak). *)
 Definition ex_H : list build := [mkBuild None (Some ex_custom) [QNs foo; QSchema foo]].
 Definition ex_T : build := mkBuild None None [QNs foo; QSchema foo].
 
-Theorem history_refuted :
-  exists e h b, env_ok e /\ default_build b = true /\ observe e (run_history e ost0 h) b <> observe e ost0 b.
-Proof.
-  exists ex_env, ex_H, ex_T. split; [apply ex_env_ok|]. split; [reflexivity|].
-  vm_compute. discriminate.
-Qed.
+Example history_leak_after_custom_schema_fixed :
+  default_build ex_T = true /\
+  observe ex_env (run_history ex_env ost0 ex_H) ex_T = observe ex_env ost0 ex_T /\
+  observe ex_env ost0 ex_T = (COk, [ANs false; ASchema None]).
+Proof. repeat split; vm_compute; reflexivity. Qed.
 
-(* the leak also runs the other way: built-in definitions parsed by an earlier default build are visible to a
-   later custom-schema build, which alone would not see them *)
 Definition ex_H2 : list build := [mkBuild None None [QSchema dep]].
-Definition ex_T2 : build := mkBuild None (Some ex_custom) [QSchema dep].
+Definition ex_T2 : build := mkBuild None (Some ex_custom) [QSchema dep; QNs foo].
 
-Theorem history_refuted_builtin_leak :
-  exists e h b, env_ok e /\ forallb default_build h = true /\
-                observe e (run_history e ost0 h) b <> observe e ost0 b.
-Proof.
-  exists ex_env, ex_H2, ex_T2. split; [apply ex_env_ok|]. split; [reflexivity|].
-  vm_compute. discriminate.
-Qed.
+Example history_leak_builtin_into_custom_fixed :
+  observe ex_env (run_history ex_env ost0 ex_H2) ex_T2 = observe ex_env ost0 ex_T2 /\
+  observe ex_env ost0 ex_T2 = (COk, [ASchema (Some ("builtin Deployment", true)); ANs true]).
+Proof. split; vm_compute; reflexivity. Qed.
 
 (* non-vacuity of history_partial: a default history and build with non-trivial answers *)
 Example history_partial_example :
